@@ -39,19 +39,20 @@ type c11Spec struct {
 }
 
 type c11Op struct {
-	Op     string `json:"op"`
-	R      int    `json:"r,omitempty"`
-	C      int    `json:"c,omitempty"`
-	E      int    `json:"e,omitempty"` // 1 = a non-nil error, 0 = a nil error
-	L      *[]int `json:"l,omitempty"` // absent = nil slice; entries 1 = error, 0 = nil
-	N      int    `json:"n,omitempty"`
-	Owner  string `json:"owner,omitempty"` // table | col | row | cell
-	When   int    `json:"when,omitempty"`  // 0 add, 1 render-precell, 2 render, 3 render-postcell
-	Target int    `json:"target,omitempty"`
-	Pat    int    `json:"pat,omitempty"` // 0 always fails, 1 fails on odd firings, 2 returns nil
-	Ek     int    `json:"ek,omitempty"`  // reg: 0 = kinds cycle, k+1 = this callback's errors are all of kind k
-	Do     int    `json:"do,omitempty"`  // reg: what the callback does besides returning: 0 nothing, 1 records an error on its target (row.AddError / t.AddError), 2 adds a cell to the row, 3 prepares a nested table for rendering
-	How    int    `json:"how,omitempty"` // newrow: 0 NewRow(), 1 NewRowWithCapacity(n), 2 t.NewRowSizedFor()
+	Op     string  `json:"op"`
+	R      int     `json:"r,omitempty"`
+	C      int     `json:"c,omitempty"`
+	E      int     `json:"e,omitempty"` // 1 = a non-nil error, 0 = a nil error
+	L      *[]int  `json:"l,omitempty"` // absent = nil slice; entries 1 = error, 0 = nil
+	N      int     `json:"n,omitempty"`
+	Owner  string  `json:"owner,omitempty"` // table | col | row | cell
+	When   int     `json:"when,omitempty"`  // 0 add, 1 render-precell, 2 render, 3 render-postcell
+	Target int     `json:"target,omitempty"`
+	Pat    int     `json:"pat,omitempty"` // 0 always fails, 1 fails on odd firings, 2 returns nil
+	Ek     int     `json:"ek,omitempty"`  // reg: 0 = kinds cycle, k+1 = this callback's errors are all of kind k
+	Do     int     `json:"do,omitempty"`  // reg: what the callback does besides returning: 0 nothing, 1 records an error on its target (row.AddError / t.AddError), 2 adds a cell to the row, 3 prepares a nested table for rendering
+	How    int     `json:"how,omitempty"` // newrow: 0 NewRow(), 1 NewRowWithCapacity(n), 2 t.NewRowSizedFor()
+	Sub    []c11Op `json:"sub,omitempty"` // block (c11_r6.go): the ops repeated N times as one step
 }
 
 type c11Err struct{ id int }
@@ -69,6 +70,9 @@ type c11View struct {
 func (v c11View) String() string {
 	if v.Nil {
 		return "nil"
+	}
+	if len(v.Ids) > 40 {
+		return v.Short()
 	}
 	return fmt.Sprint(v.Ids)
 }
@@ -667,7 +671,7 @@ type c11Table struct {
 	u        *tabular.ATable
 	taken    map[int]bool // the row reports to u now
 	cellSeen map[*tabular.Cell]int
-	expOther []int        // Go-side copy of u's expected log
+	expOther []int // Go-side copy of u's expected log
 }
 
 func (h *c11Table) other() *tabular.ATable {
@@ -1049,6 +1053,8 @@ func (h *c11Table) do(op c11Op) (name string, act func(), ok bool) {
 	t := h.t
 	h.curKind, h.curRow = op.Op, op.R
 	switch op.Op {
+	case "block", "tblbig":
+		return h.doVolume(op)
 	case "newrow":
 		// three ways to make a row that is not in a table; for all of them the
 		// model's row is fresh_row (no container, not in a table)
@@ -1455,7 +1461,11 @@ func c11RunTable(sp c11Spec) CaseOut {
 		if panicked {
 			sd.Panic = msg
 			desc.Steps = append(desc.Steps, sd)
-			steps = append(steps, cqPair(cqList(h.events), "Panic"))
+			if sp.Kind == "vtable" {
+				steps = append(steps, cqPair(c11CompressEvents(h.events), "Panic"))
+			} else {
+				steps = append(steps, cqPair(cqList(h.events), "Panic"))
+			}
 			others = append(others, "None")
 			if desc.Sig == "" {
 				desc.Sig = "panic:" + op.Op
@@ -1530,7 +1540,16 @@ func c11RunTable(sp c11Spec) CaseOut {
 			}
 		}
 		desc.Steps = append(desc.Steps, sd)
-		steps = append(steps, cqPair(cqList(h.events), "(let t := "+tv.Coq()+" in Ok "+cqPair("t", cqList(rc))+")"))
+		if sp.Kind == "vtable" {
+			for i, id := range ids {
+				if !(rvs[i].eq(tv) && !tv.Nil) {
+					rc[i] = cqPair(fmt.Sprint(id), rvs[i].CoqV())
+				}
+			}
+			steps = append(steps, cqPair(c11CompressEvents(h.events), "(let t := "+tv.CoqV()+" in Ok "+cqPair("t", cqList(rc))+")"))
+		} else {
+			steps = append(steps, cqPair(cqList(h.events), "(let t := "+tv.Coq()+" in Ok "+cqPair("t", cqList(rc))+")"))
+		}
 		others = append(others, ov.Coq())
 	}
 	if desc.Sig == "" {
@@ -1543,7 +1562,11 @@ func c11RunTable(sp c11Spec) CaseOut {
 	desc.Foreign = h.x.unexpected
 	desc.Kinds = h.x.kinds
 	term := "(CTab " + cqList(steps) + ")"
-	if h.u != nil {
+	if sp.Kind == "vtable" {
+		term = "(CTabV " + cqList(steps) + ")"
+		desc.Kind = "vtable"
+		h.tags = append(h.tags, "kind=vtable", fmt.Sprintf("table-holds>=2^%d", c11Log2(len(h.expTable))))
+	} else if h.u != nil {
 		for i := range steps {
 			steps[i] = cqPair(steps[i], others[i])
 		}
@@ -2101,7 +2124,21 @@ func c11Gen(r *RNG, tier string) []json.RawMessage {
 		}
 		add(c11Spec{Kind: "cont", Mode: pick(r, []string{"nil", "zero", "zero", "new", "new"}), Ek: r.Intn(c11Kinds), Ops: ops})
 	}
-	return out
+	// the histories at volume (c11_r6.go), spread evenly over the run so that
+	// the expensive evaluations land in different shards
+	vol := c11GenVolume(tier)
+	gap := len(out) / (len(vol) + 1)
+	var all []json.RawMessage
+	for i, c := range out {
+		if gap > 0 && i%gap == 0 && i/gap < len(vol) {
+			all = append(all, vol[i/gap])
+		}
+		all = append(all, c)
+	}
+	if gap == 0 {
+		all = append(vol, out...)
+	}
+	return all
 }
 
 func c11Shrink(spec json.RawMessage) []json.RawMessage {
@@ -2118,6 +2155,19 @@ func c11Shrink(spec json.RawMessage) []json.RawMessage {
 	}
 	for i := range sp.Ops {
 		with(append(append([]c11Op{}, sp.Ops[:i]...), sp.Ops[i+1:]...))
+	}
+	if sp.Kind == "vcont" || sp.Kind == "vtable" {
+		// at volume: shorter loops and lists
+		for i, op := range sp.Ops {
+			if (op.Op == "block" || op.Op == "addmany" || op.Op == "addbig" || op.Op == "tblbig") && op.N > 1 {
+				for _, n := range []int{op.N / 2, op.N - 1} {
+					ops := append([]c11Op{}, sp.Ops...)
+					ops[i].N = n
+					with(ops)
+				}
+			}
+		}
+		return out
 	}
 	for i, op := range sp.Ops {
 		repl := func(o c11Op) {
@@ -2208,6 +2258,9 @@ func init() {
 			}
 			if sp.Kind == "cont" {
 				return c11RunCont(sp)
+			}
+			if sp.Kind == "vcont" {
+				return c11RunContV(sp)
 			}
 			return c11RunTable(sp)
 		},
